@@ -1037,6 +1037,25 @@ def real_runs(check, repo, quick):
             p2.kill()
         del env.conn
 
+    def stage_cycles():
+        # a client is reusable after close() any number of times: 20 call + close cycles, each with its own server
+        env = R.Environment()
+        n0 = len(launched)
+        for k in range(20):
+            try:
+                if env.eval('return %d' % k) != k:
+                    fail('wrong answer in call/close cycle %d' % (k + 1), '')
+                    break
+                p = env.proc
+                env.close()
+                p.wait(timeout=8)
+            except Exception as e:  # noqa
+                fail('call/close cycle %d of one client failed' % (k + 1), repr(e)[:200])
+                break
+        else:
+            if len(launched) - n0 != 20:
+                fail('20 call/close cycles launched %d servers' % (len(launched) - n0), '')
+
     def stage_drop():
         env = R.Environment()
         env.prepare()
@@ -1110,7 +1129,7 @@ def real_runs(check, repo, quick):
 
     subprocess.Popen = CountingPopen
     try:
-        for name, stage in [('close/reuse/disconnect', stage_close)] + ([] if quick else [('prepare/drop', stage_drop)]) + \
+        for name, stage in [('close/reuse/disconnect', stage_close), ('20 call/close cycles', stage_cycles)] + ([] if quick else [('prepare/drop', stage_drop)]) + \
                 [('launch failure', stage_launch_failure)]:
             try:
                 stage()
